@@ -35,6 +35,8 @@ def shards(tier, seed, scale=1.0):
         out.append({'name': 'sym-%d' % s, 'kind': 'sym', 'seed': seed * 1000 + s, 'n': max(10, int(n * scale))})
     for s in range(8):
         out.append({'name': 'two-%d' % s, 'kind': 'two', 'seed': seed * 1000 + 200 + s, 'n': max(10, int(n * scale / 2))})
+    for s in range(4):
+        out.append({'name': 'base-%d' % s, 'kind': 'base', 'seed': seed * 1000 + 300 + s, 'n': max(10, int(n * scale / 2))})
     out.append({'name': 'wcmatch', 'kind': 'wcmatch', 'seed': seed})
     return out
 
@@ -44,6 +46,8 @@ def run_shard(desc):
         return run_sym(desc)
     if desc['kind'] == 'two':
         return run_two(desc)
+    if desc['kind'] == 'base':
+        return run_base(desc)
     return run_wcmatch(desc)
 
 
@@ -298,6 +302,42 @@ def run_two(desc):
             if out.stats['two_cases'] % 43 == 1:
                 out.sample({'tree': [e[1] + ('->' + e[2] if e[0] == 'l' else '/' if e[0] == 'd' else '') for e in spec],
                             'pattern': A.render_path(pp), 'cfg': cfg, 'results': len(res) if res else 0, 'stream': 'two'})
+    test()
+    return out
+
+
+def run_base(desc):
+    """MATCHBASE with a pattern that has no separator and no written globstar: the implicit `**/` prefix obeys the same rule
+    (links traversed only under FOLLOW), whether or not GLOBSTAR / GLOBSTARLONG is given."""
+    from hypothesis import given, strategies as st, seed
+    out = Outcome()
+    armed = desc['armed']
+    trees = st.one_of(st.sampled_from(LINKY), st.sampled_from([T.CATALOGUE[2], T.CATALOGUE[3], T.CATALOGUE[9]]), T.st_tree(True))
+
+    def pats(spec):
+        names = sorted({os.path.basename(e[1]) for e in spec} | {'zz'})
+        seg = st.one_of(FC.st_segment(only_names=names), st.sampled_from(names).map(A.lits), st.just((A.STAR,)))
+        return st.tuples(st.just(spec), seg.map(lambda sg: A.PathPat(False, (sg,), False, 1)))
+
+    @seed(desc['seed'])
+    @util.hyp_settings(desc['n'], shrink=False)
+    @given(trees.flatmap(pats), FC.st_cfg(['globstar', 'globstarlong', 'follow', 'dot']))
+    def test(sp, cfg):
+        spec, pp = sp
+        if any(isinstance(s, str) for s in pp.segs):
+            return
+        cfg = dict(cfg, matchbase=True)
+        follow = FC.follows_links(cfg)
+        with FC.built_tree(spec, follow_safe=follow) as (root, removed):
+            out.stats['base_cases'] += 1
+            has_dirlink = any(os.path.islink(os.path.join(b, n)) and os.path.isdir(os.path.join(b, n))
+                              for b, ds, fs in os.walk(root) for n in ds + fs)
+            res = check_case(root, spec, pp, cfg, out, armed)
+            if has_dirlink:
+                out.nontrivial((tuple(map(tuple, spec)), A.render_path(pp), tuple(sorted(cfg))))
+            if out.stats['base_cases'] % 43 == 1:
+                out.sample({'tree': [e[1] + ('->' + e[2] if e[0] == 'l' else '/' if e[0] == 'd' else '') for e in spec],
+                            'pattern': A.render_path(pp), 'cfg': cfg, 'results': len(res) if res else 0, 'stream': 'base'})
     test()
     return out
 
